@@ -554,6 +554,16 @@ pub fn oracle_c18(ops: &[String], ans: &[String]) -> Fails {
                     r.added.push(pu(t[2]));
                 }
             }
+            "res.extend" => {
+                if a != "ok" {
+                    fails.push((i, format!("extend answered {}", a)));
+                }
+                if let Some(r) = refs.get_mut(&id) {
+                    for x in &t[2..] {
+                        r.added.push(pu(x));
+                    }
+                }
+            }
             "res.clear" => {
                 if let Some(r) = refs.get_mut(&id) {
                     r.added.clear();
@@ -573,6 +583,9 @@ pub fn oracle_c18(ops: &[String], ans: &[String]) -> Fails {
                 }
             }
             "res.get" => {
+                if a == "poisoned" || a == "panic" {
+                    continue;
+                }
                 if let Some(r) = refs.get(&id) {
                     let at = toks(&a);
                     // "<k> <i> : items..."
@@ -751,14 +764,19 @@ pub fn oracle_c10(ops: &[String], ans: &[String]) -> Fails {
                     refs.insert(id, R { k, counts: BTreeMap::new(), class: BTreeMap::new(), shadow: CountMinSketch::with_params(w as usize, d as usize), e: 0 });
                 }
             }
-            "heap.add" => {
+            "heap.add" | "heap.extend" => {
                 if a != "ok" {
                     fails.push((i, format!("add answered {} (must never panic)", a)));
                     refs.remove(&id);
                     continue;
                 }
+                let items: Vec<(u64, u64)> = if t[0] == "heap.add" {
+                    vec![(pu(t[2]), pu(t[3]))]
+                } else {
+                    t[2..].iter().map(|x| { let p: Vec<&str> = x.split(':').collect(); (pu(p[0]), pu(p[1])) }).collect()
+                };
+                for (x, class) in items {
                 if let Some(r) = refs.get_mut(&id) {
-                    let (x, class) = (pu(t[2]), pu(t[3]));
                     *r.counts.entry(x).or_insert(0) += 1;
                     r.class.insert(x, class);
                     r.shadow.add(&HKey { id: x, class });
@@ -770,6 +788,7 @@ pub fn oracle_c10(ops: &[String], ans: &[String]) -> Fails {
                             r.e = est - c;
                         }
                     }
+                }
                 }
             }
             "heap.clear" => {
@@ -838,6 +857,7 @@ pub fn oracle_td(ops: &[String], ans: &[String], prop: &str) -> Fails {
     let mut refs: HashMap<u64, TdRef> = HashMap::new();
     // per instance: last answers for repeated-read check and grid monotonicity
     let mut last_read: HashMap<u64, (String, String)> = HashMap::new();
+    let mut lastq: HashMap<u64, (f64, f64)> = HashMap::new();
     let mut qgrid: HashMap<u64, Vec<(f64, f64)>> = HashMap::new();
     let mut cgrid: HashMap<u64, Vec<(f64, f64)>> = HashMap::new();
     for (i, o, a) in expand(ops, ans) {
@@ -856,6 +876,7 @@ pub fn oracle_td(ops: &[String], ans: &[String], prop: &str) -> Fails {
             last_read.insert(id, (o.clone(), a.clone()));
         } else if !["td.min", "td.max", "td.empty", "td.getters"].contains(&t[0]) {
             last_read.remove(&id);
+            lastq.remove(&id);
             qgrid.remove(&id);
             cgrid.remove(&id);
         }
@@ -991,6 +1012,7 @@ pub fn oracle_td(ops: &[String], ans: &[String], prop: &str) -> Fails {
                         }
                     }
                     g.push((q, v));
+                    lastq.insert(id, (q, v));
                 }
                 "td.cdf" => {
                     let x = pf(t[2]);
@@ -1002,6 +1024,28 @@ pub fn oracle_td(ops: &[String], ans: &[String], prop: &str) -> Fails {
                         continue;
                     }
                     let ctol = 64.0 * f64::EPSILON * (sw / wmin).max(1.0);
+                    // mutual consistency: cdf(quantile(q)) is q to within the digest's resolution (the
+                    // maximal cluster width of the scale function, plus the half-weight of a singleton
+                    // tail centroid); applies to unit-weight digests, where that width is known
+                    if let Some((q, qv)) = lastq.remove(&id) {
+                        if qv.to_bits() == x.to_bits() && r.unit {
+                            let n = r.xs.len() as f64;
+                            let d = r.delta;
+                            let wres = match r.scale {
+                                0 => 2.0 / d,
+                                1 => std::f64::consts::PI / d,
+                                2 => if n >= d { ((n / d).ln() + 6.0) / d } else { 1.0 },
+                                _ => if n >= d { (2.0 * (n / d).ln() + 10.5) / d } else { 1.0 },
+                            };
+                            // ties in the data put an atom under the estimate: the cdf may sit anywhere in its jump
+                            // (values within the stated few-ulp allowance of x count as the same atom)
+                            let atom = r.xs.iter().filter(|p| (p.0 - x).abs() <= tol).count() as f64 / n;
+                            let allow = wres + 2.0 / n + atom + ctol;
+                            if (v - q).abs() > allow {
+                                fails.push((i, format!("cdf(quantile({})) = {} differs from q by more than the digest's resolution {:.5} (quantile gave {})", q, v, allow, x)));
+                            }
+                        }
+                    }
                     if !(v >= -ctol && v <= 1.0 + ctol) {
                         fails.push((i, format!("cdf({}) = {} outside [0,1]", x, v)));
                     }
@@ -1046,6 +1090,9 @@ pub fn oracle_c20(ops: &[String], ans: &[String]) -> Fails {
         let id = pu(t[1]);
         match t[0] {
             "hll.deser" => {
+                if a == "panic" {
+                    fails.push((i, "deserialisation of a corrupted document panicked instead of returning an error".into()));
+                }
                 if a == "ok" {
                     deser_ok.insert(id);
                 } else {
